@@ -69,12 +69,18 @@ class Engines:
             f = self.dtw.distance if nd == 1 else self.dtw_ndim.distance
             out['use_c'] = core.call(f, a1, a2, only_ub=ub, use_c=True, **kw)
         if 'matrix' in which and not ub:
-            if nd == 1:
-                m = core.call(self.dtw.distance_matrix, [self.np.array(case['s1'], dtype=float), self.np.array(case['s2'], dtype=float)],
-                              use_c=True, compact=True, **kw)
+            # The pair is the LAST pair of a 4-series collection whose first two series are single points (no psi) - so
+            # that anything a kernel leaves behind in the shared settings / scratch state from earlier pairs reaches it.
+            # With psi the collection is the pair itself (psi must not exceed the length of any series of a collection).
+            n1 = self.np.array(case['s1'], dtype=float)
+            n2 = self.np.array(case['s2'], dtype=float)
+            if case.get('psi') is None:
+                coll, k = [n1[:1].copy(), n2[:1].copy(), n1, n2], 5
             else:
-                m = core.call(self.dtw_ndim.distance_matrix, [a1, a2], use_c=True, compact=True, **kw)
-            out['matrix'] = m if isinstance(m, core.Exc) else m[0]
+                coll, k = [n1, n2], 0
+            f = self.dtw.distance_matrix if nd == 1 else self.dtw_ndim.distance_matrix
+            m = core.call(f, coll, use_c=True, compact=True, **kw)
+            out['matrix'] = m if isinstance(m, core.Exc) else m[k]
         if 'native' in which:
             s = self.lib.settings(window=kw.get('window'), max_dist=kw.get('max_dist'), max_step=kw.get('max_step'),
                                   max_length_diff=kw.get('max_length_diff'), penalty=kw.get('penalty'), psi=kw.get('psi'),
@@ -235,7 +241,7 @@ def run(ctx):
     return core.finish(
         PROP, ctx.tier, ctx.seed, acc,
         rule='product enumeration (no sampling); each case is pushed through the Python engine and 2-4 C routes '
-             '(dtw.distance_fast, distance(use_c=True), distance_matrix(use_c=True) of the pair, exported C function via ctypes); '
+             '(dtw.distance_fast, distance(use_c=True), distance_matrix(use_c=True) with the pair as the last pair of a 4-series collection (as the only pair when psi is set), exported C function via ctypes); '
              'non-trivial = at least one non-default option, euclidean inner distance or ndim > 1',
         bounds={'alphabet': list(univ.alphabet(univ.BASE3, ctx.seed)), 'ndim_alphabet': list(univ.alphabet(univ.BASE2, ctx.seed)),
                 'U1': 'all pairs len 1..%d x window x penalty x max_step x inner x all psi forms' % (4 if ctx.thorough else 3),
